@@ -369,6 +369,9 @@ type mismatch struct {
 	Detail   string      `json:"detail,omitempty"`
 	Concrete interface{} `json:"concrete,omitempty"`
 	Replay   interface{} `json:"replay,omitempty"`
+	// Beyond: the observed behaviour differs from the pinned one in a point the property's statement does
+	// not speak about: recorded in the evidence, never a verdict
+	Beyond bool `json:"beyond,omitempty"`
 }
 
 type replaySummary struct {
@@ -444,6 +447,11 @@ func (c *collector) report(m mismatch) {
 	}
 	c.keyCounts[m.Key]++
 	c.mu.Unlock()
+}
+
+// beyond records a difference in a point the property's statement does not speak about (no verdict).
+func (c *collector) beyond(kind, detail string, cs, exp, act interface{}) {
+	c.report(mismatch{Kind: kind, Key: "beyond:" + kind, Case: cs, Detail: detail, Expected: exp, Actual: act, Beyond: true})
 }
 
 func (c *collector) sample(v interface{}) {
